@@ -64,7 +64,7 @@ Proof.
       rewrite forget_pbind, forget_lift. apply bind_ext. intros [items2 s2]. rewrite forget_pbind.
       rewrite (loop_items_p_forget _ (exec_list c fuel esc)) by apply IHl. apply bind_ext. intros s5.
       destruct items2; [destruct els; [apply IHl|reflexivity]|reflexivity].
-    + rewrite forget_pbind, forget_lift. apply bind_ext. intros [v s1]. reflexivity.
+    + rewrite forget_pbind, forget_lift. apply bind_ext. intros [v s1]. rewrite forget_pbind, forget_lift. apply bind_ext. reflexivity.
     + rewrite forget_pbind, forget_pbind, forget_recapture, IHl. unfold bind at 2 4.
       destruct (exec_list c fuel esc (with_out s []) body) as [[sg s1]| | |]; cbn [bind forget]; try reflexivity.
       destruct sg; try reflexivity. rewrite forget_pbind, forget_lift. apply bind_ext. reflexivity.
@@ -72,7 +72,7 @@ Proof.
     + destruct (enclose c s (macro_closure params defaults body)). reflexivity.
     + rewrite forget_pbind, forget_lift. apply bind_ext. intros [vs s1].
       destruct (enclose c s1 (macro_closure [] [] body)) as [s2 cl]. destruct (lookup c s2 mn) as [fv s3].
-      destruct fv as [[| | |b|z|sf t|l|mc mcl|i n|g]|]; try reflexivity.
+      destruct fv as [[| | |b|z|sf t|l|kvs|mc mcl|i n|g]|]; try reflexivity.
       rewrite forget_pbind, forget_lift. apply bind_ext. intros [v s4]. reflexivity.
     + rewrite forget_pbind, forget_pbind, forget_recapture, IHl. unfold bind at 2 4.
       destruct (exec_list c fuel esc (with_out s []) body) as [[sg s1]| | |]; cbn [bind forget]; try reflexivity.
